@@ -443,7 +443,7 @@ func c14Push(c *Ctx) {
 				ia, _ = u.X.(*ssa.IndexAddr)
 			}
 			if ia == nil || !strings.HasSuffix(fl.K.Key(ia.X), kQueue+"entries") {
-				bad = append(bad, "dropped value "+fl.K.Key(lf.Val)+" is not a load from entries")
+				bad = append(bad, "dropped value "+lf.KeyIn(fl)+" is not a load from entries")
 				continue
 			}
 			idx := fl.K.Key(ia.Index)
